@@ -316,6 +316,45 @@ def run(ctx):
                 if k.split(".")[0] == pkg:
                     del sys.modules[k]
     api._store_var = saved_store
+    # a pipeline that retries a keep whose function failed (the failure handled inside the evaluation, the same path kept again):
+    # what plain execution does - the function runs again, its result or its second failure is what the pipeline gets
+    ref = pipeline.ref_worker()
+    for ri, (fails, store_kind) in enumerate([(1, "local"), (1, "memory"), (99, "local"), (0, "local_lru"), (1, "local_lru")]):
+        base = tempfile.mkdtemp(prefix="ddsverif_c10r_")
+        pkg = "c10r_%d_%d" % (os.getpid(), ri)
+        try:
+            real.reset_process_state()
+            real.set_store(store_kind, os.path.join(base, "si"), os.path.join(base, "sd"))
+            ref.call(cmd="refpaths", paths={})
+            src = ("import dds\nfrom ddsverif_rt import log, term, fail_first\n\n"
+                   "def fetch():\n    log('fetch')\n    n = fail_first('source', %d, 'ConnectionError')\n    return term('fetch')\n\n"
+                   "def f0():\n    for attempt in (1, 2):\n        try:\n            return term('f0', dds.keep('/r/data', fetch), attempt)\n"
+                   "        except ConnectionError:\n            log('handled')\n    return 'gave up'\n" % fails)
+            os.makedirs(os.path.join(base, pkg), exist_ok=True)
+            open(os.path.join(base, pkg, "__init__.py"), "w").close()
+            with open(os.path.join(base, pkg, "main.py"), "w") as fh:
+                fh.write(src)
+            real.load_world(base, pkg + ".main", None, accept=pkg)
+            ref.call(cmd="world", dir=base, module=pkg + ".main", extmod=None)
+            ref.call(cmd="exec", stmt="__import__('ddsverif_rt').COUNTS.clear()")
+            ddsverif_rt.COUNTS.clear()
+            entry = {"kind": "eval", "fun": "f0"}
+            rr = ref.call(cmd="run", entry=entry)
+            r = real.run(entry)
+            res.evaluations += 1
+            res.count("retried_keeps")
+            res.nontrivial("retried keep %d" % ri)
+            if rr.get("error") is not None:
+                raise common.Infra("the retry pipeline does not run: %s" % (rr["error"],))
+            if r["error"] is not None or r["value"] != rr["value"] or r["log"] != rr["log"]:
+                res.violations.append({"what": "a pipeline that keeps the same path again after the kept function failed (the source fails %d time(s)): dds returns %r "
+                                               "(error %s, executed %s), plain execution %r (executed %s)" % (fails, r["value"], r["error"], r["log"], rr["value"], rr["log"]),
+                                       "input": {"source": src, "store": store_kind}, "kf": None})
+        finally:
+            shutil.rmtree(base, ignore_errors=True)
+            for k in list(sys.modules):
+                if k.split(".")[0] == pkg:
+                    del sys.modules[k]
     pipeline.close_ref()
     res.rule = ("%d generated pipelines x failing function (quick: 3 per pipeline; thorough: every function) x exception classes %s x entry "
                 "{eval, keep} x stores {memory, local, local+cache}; each followed by the repaired pipeline; one case = (pipeline, failing "
